@@ -113,7 +113,10 @@ Inductive op :=
 (** [VersionNum::v1_with_width(w)] (types.rs:277) as every later command reads
     it back from the staged inventory.json: "v1" for w = 1 has no leading
     zero, so it parses with width 0 (types.rs:343-349); for every other width
-    display/parse is the identity (Proofs: [v1_stored_reparse]). *)
+    display/parse is the identity (Proofs: [v1_stored_reparse], all widths).
+    Not modelled: the file system's limit on the length of a directory name - with
+    a padding width above 254 the version directory "v00..01" cannot be created
+    and every cp / commit of such an object is refused by the operating system. *)
 Definition v1_stored (w : N) : vnum := if w =? 1 then mkV 1 0 else mkV 1 w.
 
 Definition last_state (vs : list vstate) : vstate := last vs [].
